@@ -87,7 +87,7 @@ Dec(w) == LET G(ls) == DecLines(ls, 1, TRUE, TRUE)
 EndsWithCRLF(w) == Len(w) >= 2 /\ w[Len(w) - 1] = CR /\ w[Len(w)] = LF
 (* The client's data phase is right iff a reference server reading it hands the message exactly the
    body's lines, sees the end of data exactly at the end of what was sent, and nothing else. *)
-SenderOK(b, w) == Dec(w) = Expected(b) /\ EndsWithCRLF(w)
+SenderOK(ex, w) == Dec(w) = ex /\ EndsWithCRLF(w)          \* ex = Expected(body)
 
 -----------------------------------------------------------------------------
 (* Incremental server machine *)
@@ -116,14 +116,15 @@ VARIABLES cfg,        \* [mode |-> "client" | "server", rcvd |-> bytes of the Re
           body,       \* the message body given to the client (or stuffed by the harness)
           wire,       \* bytes of the data phase on the wire, client -> server
           sent,       \* TRUE once the data phase has been produced
+          exp,        \* Expected(body), computed once when the body is known (see ExpInv)
           consumed, mach, out, last
 
-vars == <<cfg, body, wire, sent, consumed, mach, out, last>>
+vars == <<cfg, body, wire, sent, exp, consumed, mach, out, last>>
 
 Ctl(m) == [buf |-> m.buf, data |-> m.data, first |-> m.first]
 
 InitWith(c) ==
-    /\ cfg = c /\ body = <<>> /\ wire = <<>> /\ sent = FALSE /\ consumed = 0
+    /\ cfg = c /\ body = <<>> /\ wire = <<>> /\ sent = FALSE /\ exp = <<>> /\ consumed = 0
     /\ mach = Ctl(M0) /\ out = <<>> /\ last = [e |-> "init"]
 
 Pre == IF cfg.rcvd # <<>> THEN <<Line(cfg.rcvd)>> ELSE <<>>
@@ -131,7 +132,7 @@ Pre == IF cfg.rcvd # <<>> THEN <<Line(cfg.rcvd)>> ELSE <<>>
 (* The real client sent body b as w.  Whether w is acceptable is SenderInv. *)
 Send(b, w) ==
     /\ cfg.mode = "client" /\ ~sent
-    /\ body' = b /\ wire' = w /\ sent' = TRUE
+    /\ body' = b /\ wire' = w /\ sent' = TRUE /\ exp' = Expected(b)
     /\ last' = [e |-> "send", pre |-> Pre]
     /\ UNCHANGED <<cfg, consumed, mach, out>>
 
@@ -139,7 +140,7 @@ Send(b, w) ==
 Inject(b, tl, w) ==
     /\ cfg.mode = "server" /\ ~sent
     /\ w = DataWire(b) \o tl
-    /\ body' = b /\ wire' = w /\ sent' = TRUE
+    /\ body' = b /\ wire' = w /\ sent' = TRUE /\ exp' = Expected(b)
     /\ last' = [e |-> "inject", pre |-> Pre]
     /\ UNCHANGED <<cfg, consumed, mach, out>>
 
@@ -151,13 +152,13 @@ Deliver(k) ==
          /\ out' = out \o m.items
          /\ last' = [e |-> "deliver", k |-> k, out |-> m.items]
     /\ consumed' = consumed + k
-    /\ UNCHANGED <<cfg, body, wire, sent>>
+    /\ UNCHANGED <<cfg, body, wire, sent, exp>>
 
 (* The client's sentMail callback fired with these codes (exactly one 250) once everything was delivered. *)
 End ==
     /\ cfg.mode = "client" /\ sent /\ consumed = Len(wire)
     /\ last' = [e |-> "end", codes |-> <<250>>]
-    /\ UNCHANGED <<cfg, body, wire, sent, consumed, mach, out>>
+    /\ UNCHANGED <<cfg, body, wire, sent, exp, consumed, mach, out>>
 
 -----------------------------------------------------------------------------
 Consumed == SubSeq(wire, 1, consumed)
@@ -165,11 +166,12 @@ IsPrefix(s, t) == Len(s) <= Len(t) /\ \A i \in 1..Len(s) : s[i] = t[i]
 Kinds(items) == {items[i][1] : i \in 1..Len(items)}
 
 RefInv     == out = Dec(Consumed)                                              \* any segmentation
-SenderInv  == (cfg.mode = "client" /\ sent) => (WellFormedBody(body) /\ SenderOK(body, wire))
-NoLoss     == (cfg.mode = "client" /\ sent) => IsPrefix(out, Expected(body))    \* exactly the body's lines, in order
+ExpInv     == sent => exp = Expected(body)
+SenderInv  == (cfg.mode = "client" /\ sent) => (WellFormedBody(body) /\ SenderOK(exp, wire))
+NoLoss     == (cfg.mode = "client" /\ sent) => IsPrefix(out, exp)              \* exactly the body's lines, in order
 EndOnlyAtTerminator ==                                                          \* not before the client's final "."
     (cfg.mode = "client" /\ sent /\ consumed < Len(wire)) => ~("eom" \in Kinds(out) \/ "r" \in Kinds(out))
-EndToEnd   == (cfg.mode = "client" /\ sent /\ consumed = Len(wire)) => out = Expected(body)
+EndToEnd   == (cfg.mode = "client" /\ sent /\ consumed = Len(wire)) => out = exp
 
 RefInvSync == consumed = Len(wire) => out = Dec(wire)     \* RefInv where everything sent has been consumed
 
